@@ -5,7 +5,10 @@ marginals are computed on plain numpy arrays by attribute *name*, never through 
 operations.  The only things read from mbi objects are `.values`, `.domain.attrs` and
 `.domain.shape` of stored factors / returned answers.
 """
-import itertools
+import itertools, os
+# the runner forks 16 workers; the tables here are tiny, so BLAS worker threads only cause contention
+for _v in ('OPENBLAS_NUM_THREADS', 'OMP_NUM_THREADS', 'MKL_NUM_THREADS'):
+    os.environ.setdefault(_v, '1')
 import numpy as np
 
 ATTRS = ['a', 'b', 'c', 'd']
@@ -107,6 +110,9 @@ def joint_log(model):
             v = np.asarray(f.values, dtype=float).reshape(tuple(f.domain.shape))
             order = sorted(range(len(fa)), key=lambda i: attrs.index(fa[i]))
             v = np.transpose(v, order)
+            fin = v[np.isfinite(v)]
+            if fin.size:
+                v = v - fin.max()       # constant shift per factor: same distribution, keeps precision when potentials are huge
             shp = [shape[i] if attrs[i] in fa else 1 for i in range(len(attrs))]
             logp = logp + v.reshape(shp)
     return logp
